@@ -15,6 +15,7 @@ mod env;
 mod exec;
 mod gen;
 mod ops;
+mod ops_big;
 mod ops_bulk;
 mod ops_fmt;
 mod ops_iter;
